@@ -26,6 +26,107 @@ func regSumm(p *Prog, d int) *Summ {
 	return s
 }
 
+// regAnchors resolves the regulator's internal routines by role (never by name).
+type regAnchors struct {
+	breaker    *ssa.Function            // deletes a table entry and decrements the table count
+	poppers    map[*ssa.Function]bool   // pop the head of the waiting queue in a loop
+	enqueuer   *ssa.Function            // appends incoming players to the waiting queue
+	drainer    *ssa.Function            // stores the undispatched remainder into the queue
+	dispatcher *ssa.Function            // invokes the assign-players callback
+	opener     *ssa.Function            // invokes the request-table callback
+	all        map[*ssa.Function]bool
+}
+
+func resolveRegAnchors(p *Prog) *regAnchors {
+	ra := &regAnchors{poppers: map[*ssa.Function]bool{}, all: map[*ssa.Function]bool{}}
+	for _, fn := range p.Funcs {
+		if fn.Pkg == nil || shortPkg(fn.Pkg.Pkg.Path()) != regPkg || fn.Parent() != nil {
+			continue
+		}
+		hasLoop := len(findLoops(fn)) > 0
+		for _, b := range fn.Blocks {
+			for _, in := range b.Instrs {
+				switch x := in.(type) {
+				case *ssa.Call:
+					if bi, ok := x.Call.Value.(*ssa.Builtin); ok && bi.Name() == "delete" && typeShort(x.Call.Args[0].Type()) == "map[string]*regulator.Table" {
+						ra.breaker = fn
+					}
+					if !x.Call.IsInvoke() && x.Call.StaticCallee() == nil {
+						if loadsField(x.Call.Value, "regulator.regulator.assignPlayersFn") {
+							ra.dispatcher = fn
+						}
+						if loadsField(x.Call.Value, "regulator.regulator.requestTableFn") {
+							ra.opener = fn
+						}
+					}
+				case *ssa.Store:
+					if accessKey(x.Addr) != "regulator.regulator.waitingQueue" {
+						continue
+					}
+					switch v := x.Val.(type) {
+					case *ssa.Slice:
+						if hasLoop {
+							ra.poppers[fn] = true
+						}
+					case *ssa.Call:
+						if bi, ok := v.Call.Value.(*ssa.Builtin); ok && bi.Name() == "append" {
+							ra.enqueuer = fn
+						}
+					case *ssa.Phi:
+						ra.drainer = fn
+					}
+				}
+			}
+		}
+	}
+	for _, f := range []*ssa.Function{ra.breaker, ra.enqueuer, ra.drainer, ra.dispatcher, ra.opener} {
+		if f != nil {
+			ra.all[f] = true
+		}
+	}
+	for f := range ra.poppers {
+		ra.all[f] = true
+	}
+	return ra
+}
+
+// regHelpers: package-private helpers that are not role anchors and do not iterate over the
+// table map are analysed where they are used.
+func (ra *regAnchors) helperFilter(p *Prog, owner *ssa.Function) func(*ssa.Function) bool {
+	return func(f *ssa.Function) bool {
+		if !privateHelper(owner, f) || ra.all[f] {
+			return false
+		}
+		// counting helpers over the table map stay opaque predicates
+		for _, l := range findLoops(f) {
+			if ri := analyseRange(l); ri.Kind == "map" {
+				return false
+			}
+		}
+		return true
+	}
+}
+
+func callsTo(ps *PathSum, fn *ssa.Function) []*Event {
+	var out []*Event
+	for _, e := range ps.Events {
+		if (e.Kind == "call" || e.Kind == "defer") && e.Fn != nil && e.Fn == fn {
+			out = append(out, e)
+		}
+	}
+	return out
+}
+
+func callsToAny(ps *PathSum, fns map[*ssa.Function]bool) []*Event {
+	var out []*Event
+	for _, e := range ps.Events {
+		if (e.Kind == "call" || e.Kind == "defer") && e.Fn != nil && fns[e.Fn] {
+			out = append(out, e)
+		}
+	}
+	return out
+}
+
 // refusalCheck: generic guard/refusal over path summaries with an explicit pass test.
 func (c *Ctx) refusalCheck(rule string, fn *ssa.Function, guardName string, isGuard func(v *Val) (isG bool, passed bool), wantErr string) {
 	p := c.P
@@ -131,6 +232,16 @@ func lookupIntConst(p *Prog, pkg, name string) (int64, bool) {
 // runRegLockstep: the counter rules (also used by C19 for dispatch and by C20 for break).
 func runRegLockstep(c *Ctx, rule string) {
 	p := c.P
+	ra := resolveRegAnchors(p)
+	if ra.breaker == nil || ra.enqueuer == nil || ra.dispatcher == nil || ra.opener == nil || len(ra.poppers) == 0 {
+		c.undecided(rule, "anchors", "-", "cannot resolve the regulator's internal routines by role (breaker / queue writers / dispatcher / opener)")
+		return
+	}
+	c.role("table breaker", fnKey(ra.breaker))
+	c.role("queue poppers", fnNames(fnSetToList(ra.poppers)))
+	c.role("enqueuer", fnKey(ra.enqueuer))
+	c.role("dispatcher", fnKey(ra.dispatcher))
+	c.role("table opener", fnKey(ra.opener))
 	sync := p.Func(regPkg, "regulator", "SyncState")
 	add := p.Func(regPkg, "regulator", "AddPlayers")
 	// (a) AddPlayers
@@ -149,7 +260,7 @@ func runRegLockstep(c *Ctx, rule string) {
 			if len(st) != 1 || st[0].Val.asAff().String() != "len("+pl+") + recv.playerCount" {
 				bad = append(bad, "the total changes by something other than len(players): "+st[0].Val.String())
 			}
-			q := ps.Calls(".enterWaitingQueue")
+			q := callsTo(ps, ra.enqueuer)
 			if len(q) != 1 || q[0].Args[1].String() != pl {
 				bad = append(bad, "the players counted are not the players queued")
 			}
@@ -160,6 +271,7 @@ func runRegLockstep(c *Ctx, rule string) {
 	{
 		c.touch(fnKey(sync))
 		s := regSumm(p, 0)
+		s.HelperInline = ra.helperFilter(p, sync)
 		paths, cut := s.Function(sync)
 		tid, out := "param:"+sync.Params[1].Name(), "param:"+sync.Params[2].Name()
 		T := "lookup(recv.tables, " + tid + ")"
@@ -168,10 +280,15 @@ func runRegLockstep(c *Ctx, rule string) {
 		if cut != "" {
 			bad = append(bad, "summary cut: "+cut)
 		}
-		// the release loop
+		// the release loop (possibly inside an inlined helper)
 		var relLoop *Loop
-		for _, l := range s.loops(sync) {
-			relLoop = l
+		var relFn *ssa.Function
+		for _, ps := range paths {
+			for _, e := range ps.Events {
+				if e.Kind == "loop" {
+					relLoop, relFn = e.Loop, e.InFn
+				}
+			}
 		}
 		for _, ps := range paths {
 			if !hasCond(ps, func(v *Val) bool { return v.K == KAtom && v.At.Op == "b" && !v.Neg && strings.HasPrefix(v.At.L, "has(recv.tables") }) {
@@ -188,8 +305,8 @@ func runRegLockstep(c *Ctx, rule string) {
 				continue
 			}
 			cur := tab[0].Val.asAff()
-			brk := ps.Calls(".breakTable")
-			req := ps.Calls(".requestPlayers")
+			brk := callsTo(ps, ra.breaker)
+			req := callsToAny(ps, ra.poppers)
 			hasLoop := false
 			for _, e := range ps.Events {
 				if e.Kind == "loop" {
@@ -239,7 +356,7 @@ func runRegLockstep(c *Ctx, rule string) {
 			}
 		}
 		if relLoop != nil {
-			body, _ := s.LoopBody(sync, relLoop)
+			body, _ := s.LoopBody(relFn, relLoop)
 			for _, bp := range body {
 				if bp.End != "continue" {
 					if len(bp.storesTo("regulator.Table.PlayerCount")) > 0 {
@@ -272,7 +389,7 @@ func runRegLockstep(c *Ctx, rule string) {
 		c.check(len(bad) == 0, rule, fnKey(sync), p.FnPos(sync), fmt.Sprintf("counts move together on all paths (%v)", kinds), "sync miscounts", uniq(bad, 4)...)
 	}
 	// (c) breakTable
-	if bt := p.Func(regPkg, "regulator", "breakTable"); bt == nil {
+	if bt := ra.breaker; bt == nil {
 		c.undecided(rule, "breakTable", "-", "not found")
 	} else {
 		c.touch(fnKey(bt))
@@ -302,7 +419,7 @@ func runRegLockstep(c *Ctx, rule string) {
 		c.check(len(bad) == 0 && n > 0, rule, fnKey(bt), p.FnPos(bt), "entry deleted and table count decremented together, only for an existing table", "breaking a table miscounts", uniq(bad, 3)...)
 	}
 	// (d) dispatchPlayer
-	if dp := p.Func(regPkg, "regulator", "dispatchPlayer"); dp == nil {
+	if dp := ra.dispatcher; dp == nil {
 		c.undecided(rule, "dispatchPlayer", "-", "not found")
 	} else {
 		c.touch(fnKey(dp))
@@ -347,7 +464,7 @@ func runRegLockstep(c *Ctx, rule string) {
 			full := X == pl
 			if full {
 				if !hasCond(ps, func(v *Val) bool {
-					return v.K == KAtom && v.At.Op == "lt" && v.Neg && v.At.A.String() == "-len("+pl+") + "+base+".Required"
+					return ltIs(v, "len("+pl+") - "+base+".Required - 1")
 				}) {
 					bad = append(bad, "all candidates are handed out without the test Required >= len(candidates)")
 				}
@@ -366,7 +483,7 @@ func runRegLockstep(c *Ctx, rule string) {
 		c.check(len(bad) == 0 && n >= 2, rule, fnKey(dp), p.FnPos(dp), "len(picked) moves from Required to PlayerCount of the table the slice is assigned to; at most Required players are picked and the rest is returned", "dispatch miscounts or exceeds the table's requirement", uniq(bad, 4)...)
 	}
 	// (e) allocateTables
-	if at := p.Func(regPkg, "regulator", "allocateTables"); at == nil {
+	if at := ra.opener; at == nil {
 		c.undecided(rule, "allocateTables", "-", "not found")
 	} else {
 		c.touch(fnKey(at))
@@ -393,7 +510,13 @@ func runRegLockstep(c *Ctx, rule string) {
 				}
 				n++
 				P := req.Args[0].String()
-				if !strings.Contains(P, "getPlayersFromWaitingQueue(") {
+				fromPop := false
+				for f := range ra.poppers {
+					if strings.Contains(P, fnKey(f)+"(") {
+						fromPop = true
+					}
+				}
+				if !fromPop {
 					bad = append(bad, "the players of a new table do not come from the waiting queue")
 				}
 				pc := bp.storesTo("regulator.Table.PlayerCount")
@@ -463,7 +586,7 @@ func runRegQueue(c *Ctx) {
 							for _, lf := range leaves {
 								okLeaf := loadsField(lf, "regulator.regulator.waitingQueue")
 								if ex, isEx := lf.(*ssa.Extract); isEx && ex.Index == 0 {
-									if call, isCall := ex.Tuple.(*ssa.Call); isCall && call.Common().StaticCallee() != nil && call.Common().StaticCallee().Name() == "dispatchPlayer" {
+									if call, isCall := ex.Tuple.(*ssa.Call); isCall && call.Common().StaticCallee() != nil && call.Common().StaticCallee() == resolveRegAnchors(p).dispatcher {
 										okLeaf = true
 									}
 								}
